@@ -5,6 +5,11 @@ Nothing here is copied from TreeDisplay/TreeTag.py.  The model is the statement 
 property: a set of expanded paths; expand adds a path, collapse removes the path and its
 extensions, expand_all = every node that has children, collapse_all = nothing.  The decoder
 is written from the tpRender docstring ("compressed and base64ed string") only.
+
+Guarded template classes (the documented way to add access control: a subclass that supplies
+guarded_getattr / guarded_getitem) and the skip_unauthorized option: when both are present the
+children the guard refuses are left out, so "the children" of the statement are the accessible
+children; the model tree then simply does not contain the refused nodes (nor anything below).
 """
 import base64
 import hashlib
@@ -138,8 +143,54 @@ def scheme_id(scheme, idx, k, d):
     raise ValueError(scheme)
 
 
-def spec_from_shape(shape, scheme, leafstyle):
-    """JSON-able tree recipe: {'t': token index, 'id': recipe, 'ch': None|[...], 'rank': n}.
+def secret_sets(shape):
+    """Every set of non-root nodes (pre-order indices) in which no member lies below another
+    member: the distinct ways to make parts of the tree inaccessible (what lies below an
+    inaccessible node is out of sight anyway).  The empty set comes first."""
+    def below(t, idx):
+        # (list of sets for the subtree rooted at idx, next free index)
+        nxt = idx + 1
+        combos = [frozenset()]
+        for c in t:
+            sub, nxt = below(c, nxt)
+            combos = [a | b for a in combos for b in sub]
+        return combos + [frozenset([idx])], nxt
+    nxt = 1
+    combos = [frozenset()]
+    for c in shape:
+        sub, nxt = below(c, nxt)
+        combos = [a | b for a in combos for b in sub]
+    return sorted(combos, key=lambda x: (len(x), sorted(x)))
+
+
+def alternate_secrets(shape):
+    """Every second non-root node (pre-order)."""
+    n = [0]
+
+    def size(t):
+        n[0] += 1
+        for c in t:
+            size(c)
+    size(shape)
+    return frozenset(range(2, n[0], 2))
+
+
+def sprinkle_secrets(spec, rng, p):
+    """Mark non-root nodes of a recipe inaccessible with probability p each (in place)."""
+    count = 0
+    stack = list(spec['ch'] or [])
+    while stack:
+        node = stack.pop()
+        if rng.random() < p:
+            node['sec'] = rng.choice([1, 1, 2])
+            count += 1
+        stack.extend(node['ch'] or [])
+    return count
+
+
+def spec_from_shape(shape, scheme, leafstyle, secrets=()):
+    """JSON-able tree recipe: {'t': token index, 'id': recipe, 'ch': None|[...], 'rank': n}
+    plus 'sec': 1|2 on the nodes a guard refuses (1: Unauthorized, 2: a subclass of it).
 
     leafstyle: 'missing' (leaf objects have no branches attribute), 'empty' (the branches
     method returns []), 'mixed' (alternating).
@@ -150,6 +201,8 @@ def spec_from_shape(shape, scheme, leafstyle):
         idx = counter[0]
         counter[0] += 1
         node = {'t': idx, 'id': scheme_id(scheme, idx, k, d), 'rank': -k}
+        if idx in secrets:
+            node['sec'] = 1 + idx % 2
         if t:
             node['ch'] = [build(c, i, d + 1) for i, c in enumerate(t)]
         elif d == 0:
@@ -287,10 +340,56 @@ VARIANTS = {
 }
 
 
+# Guarded template class + skip_unauthorized: the security filter of the tag is ACTIVE (the guard
+# refuses the nodes marked 'sec' in the recipe and the tag has to leave them out).
+#   guard: None | 'both' (guarded_getattr and guarded_getitem) | 'attr' (guarded_getattr only)
+#   skip: 0 | 1 (valueless where the grammar allows it) | 2 (always skip_unauthorized=1)
+#   container: what the branches method hands out -- 'copy' (a fresh list per call), 'own' (the
+#   object's own list, the same one every time), 'tuple', 'lazy' (a sequence with only __len__ and
+#   __getitem__, like Zope's Lazy results)
+VARIANTS_GUARD = {
+    'g-skip': {'guard': 'both', 'skip': 1},
+    'g-skip-this': {'guard': 'both', 'skip': 1, 'how': 'this'},
+    'g-skip-sort-rev-own': {'guard': 'both', 'skip': 1, 'sort': 1, 'reverse': 1, 'container': 'own'},
+    'g-skip-assume': {'guard': 'both', 'skip': 1, 'assume': 1},
+    'g-skip-brexpr-tuple': {'guard': 'both', 'skip': 2, 'how': 'expr', 'branches': 'expr', 'container': 'tuple'},
+    'g-skip-kids-nid-rev-lazy': {'guard': 'both', 'skip': 1, 'branches': 'named', 'idattr': 'nid', 'reverse': 1,
+                                 'container': 'lazy'},
+    'g-skip-prefix-param': {'guard': 'both', 'skip': 2, 'prefix': 'tr', 'urlparam': 'x=1&y=2'},
+}
+# Option spellings / combinations in which nothing is filtered (the marks of the recipe must not
+# matter), other containers, and the decoration options (header / footer / leaves documents).
+VARIANTS_OPT = {
+    'g-noskip': {'guard': 'both'},                  # guard present, nothing refused (marks not applied)
+    'g-attr-skip': {'guard': 'attr', 'skip': 1},    # no guarded_getitem hook: nothing to ask
+    'skip-unguarded': {'skip': 1},                  # plain template class: nobody refuses anything
+    'name-nowrap': {'how': 'name=', 'nowrap': 1},
+    'header-footer': {'header': 1, 'footer': 1},
+    'leaves': {'leaves': 1},
+    'leaves-footer-sort': {'leaves': 1, 'footer': 1, 'sort': 1},
+    'own-reverse': {'container': 'own', 'reverse': 1},
+    'own-sort': {'container': 'own', 'sort': 1},
+    'tuple-reverse-assume': {'container': 'tuple', 'reverse': 1, 'assume': 1},
+    'lazy-sort': {'container': 'lazy', 'sort': 1},
+}
+
+
 def variant(name):
     v = {'name': name, 'how': 'name', 'branches': 'default', 'idattr': 'tpId', 'assume': 0,
-         'reverse': 0, 'sort': 0, 'urlparam': None, 'prefix': None, 'url': URL_DEFAULT, 'tpurl': 0}
-    v.update(VARIANTS[name])
+         'reverse': 0, 'sort': 0, 'urlparam': None, 'prefix': None, 'url': URL_DEFAULT, 'tpurl': 0,
+         'guard': None, 'skip': 0, 'container': 'copy', 'nowrap': 0, 'header': 0, 'footer': 0, 'leaves': 0}
+    for table in (VARIANTS, VARIANTS_GUARD, VARIANTS_OPT):
+        if name in table:
+            v.update(table[name])
+            break
+    else:
+        raise KeyError(name)
+    # the filter is active when the guard can refuse items and the tag was told to skip them
+    v['filter'] = bool(v['guard'] == 'both' and v['skip'])
+    # guard present without skip_unauthorized: a refusal would (rightly) end the request, so the
+    # marks of the recipe are not put on the objects at all
+    v['strip'] = bool(v['guard'] == 'both' and not v['skip'])
+    v['decor'] = bool(v['header'] or v['footer'] or v['leaves'])
     return v
 
 
@@ -301,6 +400,8 @@ def template_source(v):
     parts = ['<dtml-tree']
     if v['how'] == 'name':
         parts.append('root')
+    elif v['how'] == 'name=':
+        parts.append('name="root"')
     elif v['how'] == 'expr':
         parts.append('expr="root"')
     if v['branches'] == 'named':
@@ -319,6 +420,17 @@ def template_source(v):
         parts.append('urlparam="%s"' % v['urlparam'])
     if v['prefix']:
         parts.append('prefix=%s' % v['prefix'])
+    if v.get('skip'):
+        # a valueless first attribute would be read as the name of the root object
+        parts.append('skip_unauthorized' if v['skip'] == 1 and len(parts) > 1 else 'skip_unauthorized=1')
+    if v.get('nowrap'):
+        parts.append('nowrap' if len(parts) > 1 else 'nowrap=1')
+    if v.get('header'):
+        parts.append('header=hdr')
+    if v.get('footer'):
+        parts.append('footer=ftr')
+    if v.get('leaves'):
+        parts.append('leaves=lvs')
     return ' '.join(parts) + '>' + BODY + '</dtml-tree>'
 
 
@@ -331,14 +443,76 @@ class Node:
 
 
 class MNode:
-    """Model-side view of a node."""
-    __slots__ = ('tok', 'mid', 'children', 'rank', 'obj', 'missing')
+    """Model-side view of a node.  children: the children the model shows (the accessible ones
+    when the filter is active); allchildren: every child of the recipe; secret: refused by the
+    guard (only set when the filter is active)."""
+    __slots__ = ('tok', 'mid', 'children', 'rank', 'obj', 'missing', 'allchildren', 'secret')
+
+
+class Lazy:
+    """A sequence that is not a list: length and integer index only."""
+
+    def __init__(self, objs):
+        self._objs = list(objs)
+
+    def __len__(self):
+        return len(self._objs)
+
+    def __getitem__(self, i):
+        return self._objs[i]
+
+
+_CLASSES = {}
+
+
+def template_class(guard):
+    """HTML, or a subclass with the security hooks the DocumentTemplate docstring describes."""
+    from DocumentTemplate.DT_HTML import HTML
+    if not guard:
+        return HTML
+    if guard in _CLASSES:
+        return _CLASSES[guard]
+    from zExceptions import Unauthorized
+
+    class Denied(Unauthorized):
+        pass
+
+    class GuardedAttr(HTML):
+        def guarded_getattr(self, *args):      # ob, name [, default]
+            return getattr(*args)
+
+    class GuardedBoth(GuardedAttr):
+        def guarded_getitem(self, ob, index):
+            item = ob[index]
+            sec = getattr(item, 'secret', 0)
+            if sec:
+                raise (Denied if sec == 2 else Unauthorized)('not allowed')
+            return item
+    _CLASSES['attr'] = GuardedAttr
+    _CLASSES['both'] = GuardedBoth
+    return _CLASSES[guard]
+
+
+DECOR_SOURCE = '<dtml-var standard_html_header>%s<dtml-var standard_html_footer>'
+DECOR_MARKS = {'hdr': 'HDR', 'ftr': 'FTR', 'lvs': 'LVS'}
+DECOR_ROW = re.compile(r'<tr>(?:<td[^<>]*></td>)+<td[^<>]*>(HDR|FTR|LVS)</td></tr>')
+
+
+def strip_decor(out):
+    """The page without the rows of the header / footer / leaves documents, and their marks."""
+    if not isinstance(out, str):
+        return out, []
+    marks = DECOR_ROW.findall(out)
+    return DECOR_ROW.sub('', out), marks
 
 
 def build(spec, v):
     """Build engine objects and the model tree from a recipe.  Returns (root object, MNode)."""
     branches = 'tpValues' if v['branches'] == 'default' else 'kids'
     force_attr = v['branches'] == 'expr'     # a name lookup would find the parent's method
+    filt = v.get('filter', False)
+    strip = v.get('strip', False)
+    cont = v.get('container', 'copy')
 
     def make(s):
         ob = Node(s['t'])
@@ -347,6 +521,10 @@ def build(spec, v):
         m.rank = s.get('rank', 0)
         m.obj = ob
         ob.rank = m.rank
+        sec = s.get('sec', 0)
+        if sec and not strip:
+            ob.secret = sec
+        m.secret = bool(sec) and filt
         kind = s['id'][0]
         if kind == 'v':
             val = s['id'][1]
@@ -366,10 +544,19 @@ def build(spec, v):
         ch = s['ch']
         m.missing = ch is None and not force_attr
         kids = [make(c) for c in (ch or [])]
-        m.children = [k[1] for k in kids]
+        m.allchildren = [k[1] for k in kids]
+        m.children = [k[1] for k in kids if not k[1].secret]
         if not m.missing:
             objs = [k[0] for k in kids]
-            setattr(ob, branches, (lambda objs=objs: list(objs)))
+            if cont == 'own':
+                f = (lambda objs=objs: objs)
+            elif cont == 'tuple':
+                f = (lambda objs=tuple(objs): objs)
+            elif cont == 'lazy':
+                f = (lambda objs=Lazy(objs): objs)
+            else:
+                f = (lambda objs=objs: list(objs))
+            setattr(ob, branches, f)
         return ob, m
     return make(spec)
 
